@@ -10,7 +10,7 @@ from vf import tlc
 
 d = json.load(open(sys.argv[1]))
 prop = d['property']
-fam = {'C03': ('props.respfam', 'Trace_Responder'), 'C08': ('props.respfam', 'Trace_Responder'), 'C11': ('props.respfam', 'Trace_Responder'),
+fam = {'C09': ('props.respfam', 'Trace_Responder'), 'C16': ('props.respfam', 'Trace_Responder'), 'C17': ('props.respfam', 'Trace_Responder'), 'C03': ('props.respfam', 'Trace_Responder'), 'C08': ('props.respfam', 'Trace_Responder'), 'C11': ('props.respfam', 'Trace_Responder'),
        'C12': ('props.respfam', 'Trace_Responder'), 'C10': ('props.querierfam', 'Trace_Querier'), 'C13': ('props.querierfam', 'Trace_Querier'),
        'C04': ('props.cachefam', 'Trace_Cache'), 'C05': ('props.cachefam', 'Trace_Cache'), 'C06': ('props.cachefam', 'Trace_Cache')}[prop]
 mod = importlib.import_module(fam[0])
